@@ -649,6 +649,34 @@ def rule_containment(ctx: Ctx, repo: Repo) -> None:
                       "every call the profile function makes (other than the code filter) is under a catch-all handler",
                       construct=f"a failure of `{calls0[k]}` (event '{event}') leaves the profile function: it {ended_k}")
     ctx.floor("R-C03.2", "calls of the profile function that were made to fail", n_f, 2)
+    # ... and the code filter: the configured filter runs for every event of every frame of the program; the shipped one touches
+    # the file system (pathlib's resolve() needs the current directory, follows links), a custom one is user code. Its failure
+    # must not be raised into the traced program either.
+    for event in ("call", "return"):
+        sc_f = TracerScenario(repo, "__call__", {"should_trace": _S("p:filter")})
+        asked: List[str] = []
+
+        def hook_flt(call, fname, fval, args, kwargs, st, _sc=sc_f, _a=asked):
+            if isinstance(fval, _S) and fval.name == "self" and isinstance(call.func, ast.Attribute) and call.func.attr == "should_trace":
+                _a.append("filter")
+                _raise(st, "FileNotFoundError")
+                return _U("the filter failed")
+            if isinstance(fval, _S) and fval.name == "self" and isinstance(call.func, ast.Attribute) and call.func.attr in ("handle_call", "handle_return"):
+                _a.append(call.func.attr)
+                return _K(None)
+            if (fname or "").split(".")[-1] in ("exception", "error", "warning") and not (isinstance(fval, _S) and fval.name == "self"):
+                return _K(None)
+            return TracerScenario.call_hook(_sc, call, fname, fval, args, kwargs, st)
+
+        sc_f.ri.call_hook = hook_flt
+        outs_f = sc_f.run({ps[1]: _R("frame", f_code=_R("code", co_name=_K("f"), co_filename=_K("relative/app.py"))), ps[2]: _K(event), ps[3]: _S("arg")})
+        if len(outs_f) != 1:
+            raise AnalysisError(f"__call__: {len(outs_f)} outcomes with a failing filter")
+        o_f = outs_f[0]
+        ended_f = "returns" if o_f.term is None or o_f.term[0] == "return" else f"raises {o_f.term[1]}"
+        ctx.check(asked == ["filter"] and ended_f == "returns", "R-C03.2", fi.fq,
+                  "a failure of the code filter is contained like any other failure of the tracer: the event is dropped, the profile function returns normally",
+                  construct=f"event '{event}', the filter raises FileNotFoundError (no current directory to resolve a relative file name against): the profile function {ended_f}; reached {asked}")
     # every return of __call__ returns the tracer itself (a profile function's result is ignored, but
     # returning normally is what keeps it installed); no raise statement anywhere
     for x in walk_no_nested(fi.node):
